@@ -38,3 +38,20 @@ Example C03_example_wf :
   wf_val (VCall (mkCls [102]%N 4) [VCommented (VSub (mkCls [77]%N 4) (VList [VInt 1])) [99]%N]
                 [([107]%N, VTrailing (VTuple [VStr []]) [116]%N)]).
 Proof. cbn. repeat split; discriminate. Qed.
+
+(** For string-free values the statement holds for the streams the layout
+    engine really emits: two prints of the same value under ANY two widths,
+    ribbons and indents carry the same token sequence. *)
+From PP Require Import Normalize Layout Render Sem LayToks CleanDocs EndToEnd.
+Theorem C03_engine_outputs_same_tokens :
+  forall (printable sp wd lb : N -> bool) (fuel ff : nat) (v : pyval) (depth : option Z) (maxlen : Z) (sort : bool)
+         (indent1 width1 rw1 indent2 width2 rw2 : Z) (out1 out2 : list sdoc),
+    nostr v -> wf_val v ->
+    sdocs_model printable sp wd lb fuel ff v indent1 width1 rw1 depth maxlen sort = Some out1 ->
+    sdocs_model printable sp wd lb fuel ff v indent2 width2 rw2 depth maxlen sort = Some out2 ->
+    stoks (strip out1) MNormal = stoks (strip out2) MNormal.
+Proof.
+  intros. rewrite (engine_output_tokens _ _ _ _ _ _ _ _ _ _ _ _ _ _ H H0 H1).
+  now rewrite (engine_output_tokens _ _ _ _ _ _ _ _ _ _ _ _ _ _ H H0 H2).
+Qed.
+Print Assumptions C03_engine_outputs_same_tokens.
